@@ -251,7 +251,9 @@ def Proxy.prereqsSatisfied (x : Proxy) : Bool := x.pre.all Pre.isSatisfied
 def Proxy.satisfyMe (x : Proxy) (a : Atom) : Proxy :=
   { x with pre := x.pre.map (·.satisfy a), sui := x.sui.map (·.satisfy a) }
 
-def compVar (trigger : String) : String := trigger.replace "-" "_"
+/-- the completion variable of a trigger: `-` becomes `_` (character by character, so that the kernel can evaluate it) -/
+def compVar (trigger : String) : String :=
+  String.ofList (trigger.toList.map fun c => if c == '-' then '_' else c)
 
 /-- `TaskOutputs.is_complete` -/
 def isComplete (t : TaskDefn) (done : List String) : Bool :=
@@ -453,23 +455,25 @@ def submitOne (s : State) (x : Proxy) : State :=
   let y := { y with live := true, timers := true, wjp := false, manual := false }
   { (s.put y) with launched := s.launched ++ [(y.pt, y.name, y.submitNum)] }
 
-/-- `release_queued_tasks` on one queued proxy (unlimited queues): out of the queue, waiting on job preparation -/
-def releaseOne (s : State) (x : Proxy) : State :=
-  s.put { (x.reset (queued := some false)) with wjp := true }
+/-- `release_queued_tasks` (unlimited queues) followed by job preparation, for one proxy: a queued, not held proxy
+leaves its queue (unless the workflow is paused: `rel = false`); `waiting_on_job_prep` is set by the release and
+cleared again by the preparation that follows in the same call, so it is not recorded in between -/
+def releaseSubmitOne (rel : Bool) (s : State) (x : Proxy) : State :=
+  submitOne s (if rel && x.queued && !x.held then x.reset (queued := some false) else x)
 
-/-- the proxies handed to job preparation: waiting on job preparation, or manually triggered -/
-def toSubmit (s : State) (trig : List (Int × String)) : List Proxy :=
-  s.pool.filter fun x => x.wjp || trig.contains (x.pt, x.name)
+/-- the proxies handed to job preparation: released from a queue now, waiting on job preparation, or manually
+triggered -/
+def toSubmit (s : State) (rel : Bool) (trig : List (Int × String)) : List Proxy :=
+  s.pool.filter fun x => (rel && x.queued && !x.held) || x.wjp || trig.contains (x.pt, x.name)
 
 /-- `release_tasks_to_run` (not stopping): the manually triggered tasks, and unless paused the tasks released
 from the (unlimited) queues plus every proxy still waiting on job preparation; paused: the latter only -/
 def releaseAndSubmit (s : State) : State :=
   let trig := s.toTrigger
   let s := { s with toTrigger := [] }
-  let s := if s.paused then s else (s.pool.filter fun x => x.queued && !x.held).foldl releaseOne s
-  let pre := toSubmit s trig
+  let pre := toSubmit s (!s.paused) trig
   if pre.isEmpty then s else
-  let s := pre.foldl submitOne s
+  let s := pre.foldl (releaseSubmitOne (!s.paused)) s
   { s with schedUpd := true }
 
 /-! ### Removal and spawning on outputs -/
@@ -825,26 +829,31 @@ def stopTaskDone (s : State) : State × Bool :=
     ({ s with stopTask := none, stopTaskFinished := false }, true)
   else (s, false)
 
+/-- `workflow_shutdown`: an automatic stop is requested when the stop task is done or nothing is left to run -/
+def loopShutdown (g : Graph) (s : State) : State :=
+  if s.stopMode.isNone then
+    let r := stopTaskDone s
+    if r.2 then { r.1 with stopMode := some "AUTOMATIC" }
+    else
+      let r2 := checkAutoShutdown g r.1
+      if r2.2 then { r2.1 with stopMode := some "AUTOMATIC" } else r2.1
+  else s
+
+/-- the head of a main loop: runahead computation and release, `workflow_shutdown` -/
+def loopHead (g : Graph) (s : State) : State :=
+  loopShutdown g (releaseRunahead g (computeRunahead g s)).1
+
+/-- the queue-if-ready sweep followed by `clock_expire_tasks`: the state handed to `release_tasks_to_run` -/
+def loopExpire (g : Graph) (s : State) : State := clockExpireTasks g (sweepQueue s)
+
 /-- one iteration of `Scheduler._main_loop` -/
 def mainLoop (g : Graph) (s : State) : State :=
   if s.stop.isSome then s else
-  let s := computeRunahead g s
-  let s := (releaseRunahead g s).1
-  -- workflow_shutdown
-  let s :=
-    if s.stopMode.isNone then
-      let (s, std) := stopTaskDone s
-      if std then { s with stopMode := some "AUTOMATIC" }
-      else
-        let (s, auto) := checkAutoShutdown g s
-        if auto then { s with stopMode := some "AUTOMATIC" } else s
-    else s
-  if canStop s then { s with stop := s.stopMode } else
-  let s := sweepQueue s
-  let s := clockExpireTasks g s
-  let s := if s.stopMode.isNone then releaseAndSubmit s else s
-  let s := processQueue g s
-  finishLoop g s
+  let s3 := loopHead g s
+  if canStop s3 then { s3 with stop := s3.stopMode } else
+  let s5 := loopExpire g s3
+  let s6 := if s5.stopMode.isNone then releaseAndSubmit s5 else s5
+  finishLoop g (processQueue g s6)
 
 /-- `set_stop_point` -/
 def setStopPoint (s : State) (p : Int) : State :=
